@@ -318,10 +318,9 @@ theorem good_errBang (callee : String → List Val → Trace → CallRes) (code 
     {args : Sem (List Val)} (ha : Good args) (n : Nat) : Good (Doc.errBang callee code fn f args n) := by
   unfold Doc.errBang
   refine good_bind (good_wrappedCall callee f ha) (fun r => ?_)
-  by_cases hn : r.1.length ≠ n
-  · simp only [hn, if_true]; exact good_stuck
-  · simp only [hn, if_false]
-    cases isNilVal r.2 with
+  split
+  · exact good_stuck
+  · cases isNilVal r.2 with
     | none => exact good_stuck
     | some b => cases b <;> first | exact good_ok _ | exact good_panicf _
 
@@ -362,7 +361,7 @@ def Expr.src : Expr → Bool
   | .mapCompr _ _ k v fors => k.src && v.src && srcPhrases fors
   | .selCompr _ elt fors _ => elt.src && srcPhrases fors
   | .existsCompr fors => srcPhrases fors
-  | .errBang _ _ args _ => srcEs args
+  | .errBang _ _ args tys => decide (tys.length ≤ 2) && srcEs args
   | .errQ _ _ _ _ => false
   | .errDflt _ args _ d => srcEs args && d.src
 def srcEs : List Expr → Bool
@@ -432,7 +431,11 @@ theorem good_evalE (c : Ctx) : ∀ (e : Expr), e.src = true → Good (evalE c e)
     refine good_bind (good_evalE c a h.1) (fun va => good_bind (good_evalEs c vs h.2) (fun ws => ?_))
     cases spreadArgs sp ws with
     | none => exact good_stuck
-    | some xs => cases appendVals va xs <;> first | exact good_ok _ | exact good_stuck
+    | some xs =>
+      show Good (fun env2 tr2 => match appendVals va xs with
+        | some r => Res.ok r env2 tr2
+        | none => Res.stuck)
+      cases appendVals va xs <;> first | exact good_ok _ | exact good_stuck
   | .call f args, h => by
     simp only [Expr.src] at h
     unfold evalE
@@ -472,9 +475,9 @@ theorem good_evalE (c : Ctx) : ∀ (e : Expr), e.src = true → Good (evalE c e)
     unfold evalE
     exact good_existsCompr (good_evalPhrases c fors h)
   | .errBang code f args tys, h => by
-    simp only [Expr.src] at h
+    simp only [Expr.src, Bool.and_eq_true] at h
     unfold evalE
-    exact good_errBang _ _ _ _ (good_evalEs c args h) _
+    exact good_errBang _ _ _ _ (good_evalEs c args h.2) _
   | .errQ _ _ _ _, h => by simp [Expr.src] at h
   | .errDflt f args _ d, h => by
     simp only [Expr.src, Bool.and_eq_true] at h
